@@ -7,6 +7,18 @@
 (* server-to-server streams, a from address; nothing else is altered; the  *)
 (* supplied start element is the outermost tag where one is given.         *)
 (* The concurrent part (never interleaved) is Output.tla.                  *)
+(*                                                                         *)
+(* "The stream's content namespace" is a function of the KIND of session   *)
+(* the call is made on - not of how the session was made or which side     *)
+(* opened the stream.  Sessions: kind x role x the way it was constructed  *)
+(* (operator Sessions).  ContentNS(kind): RFC 6120 4.8.2 - jabber:client   *)
+(* for client-to-server, jabber:server for server-to-server streams;       *)
+(* RFC 7395 3.3.2 / 3.3.3 - on the WebSocket binding the <open/> header is *)
+(* qualified by the FRAMING namespace, which is no content namespace: the  *)
+(* stanzas are qualified by jabber:client, and every frame is a document   *)
+(* of its own, so the stanza has to name that namespace itself             *)
+(* (Context = "standalone": nothing around it declares a default           *)
+(* namespace); XEP-0114 2: jabber:component:accept for components.         *)
 (***************************************************************************)
 EXTENDS Integers, Sequences, FiniteSets, TLC, Json, SequencesExt
 
@@ -20,7 +32,25 @@ AttrIn == {"absent", "empty", "set"}
 Forms  == {"send", "sendel", "encode", "encode_m", "encode_wt", "encodeel", "encodeel_m", "encodeel_wt", "tw", "tw_flush"}
 WithStart(f) == f \in {"sendel", "encodeel", "encodeel_m", "encodeel_wt"}
 
-Inputs == [name : Names, space : Spaces, id : AttrIn, from : AttrIn, nested : BOOLEAN, s2s : BOOLEAN, form : Forms]
+
+(* the session the call is made on *)
+Kinds == {"c2s", "s2s", "ws", "comp"}
+Roles == {"init", "recv"}
+(* how it was made: "custom" - xmpp.NewSession / ReceiveSession with a Negotiator of the application that reads the *)
+(* peer's header and declares the content namespace of the kind; "pkg" - the kind's own constructor                *)
+(* (xmpp.NewClientSession / ReceiveClientSession / NewServerSession / ReceiveServerSession, websocket.NewSession / *)
+(* ReceiveSession, component.NewSession); "gen" - xmpp.NewSession / ReceiveSession with the kind's library         *)
+(* Negotiator (xmpp.NewNegotiator [+ the S2S bit], websocket.Negotiator, component.Negotiator)                     *)
+Vias  == {"custom", "pkg", "gen"}
+Sessions == {s \in [kind : Kinds, role : Roles, via : Vias] :
+               /\ (s.kind = "ws" => s.via # "custom")      \* the framing is chosen by the library's negotiator only
+               /\ (s.kind = "comp" => s.role = "init")}    \* the library has no receiving side for components
+ContentNS(kind) == CASE kind = "c2s" -> "client" [] kind = "ws" -> "client" [] kind = "s2s" -> "server" [] kind = "comp" -> "accept"
+Context(kind) == IF kind = "ws" THEN "standalone" ELSE "header"
+
+Shapes == [name : Names, space : Spaces, id : AttrIn, from : AttrIn, nested : BOOLEAN, form : Forms]
+Inputs == {[name |-> h.name, space |-> h.space, id |-> h.id, from |-> h.from, nested |-> h.nested, form |-> h.form,
+            kind |-> s.kind, role |-> s.role, via |-> s.via, s2s |-> (s.kind = "s2s")] : h \in Shapes, s \in Sessions}
 
 IsStanza(x) == x.name # "other" /\ x.space \in {"", "stream"}
 
@@ -40,6 +70,8 @@ Complete(x) ==
     outer  |-> IF WithStart(x.form) THEN "given" ELSE "own",   \* which start element is outermost
     nested |-> IF x.nested THEN "untouched" ELSE "none",       \* a stanza-named child is not completed
     payload |-> "same",
+    ns      |-> ContentNS(x.kind),   \* what "stream" stands for on this session, whoever opened it and however it was made
+    context |-> Context(x.kind),     \* what surrounds the element on the wire
     next   |-> "toplevel" ]   \* the element of the NEXT transmit call is a top-level element of its own, whole
 
 (* model-level sanity: completion is idempotent on what it controls *)
@@ -51,12 +83,17 @@ C05_CompleteIdempotent ==
      IsStanza(x) => /\ Complete(y).id = {"same"} /\ Complete(y).space = {"stream"}
                     /\ (x.s2s => Complete(y).from = {"same"})
 C05_StanzaAlwaysIdentified == \A x \in Inputs : IsStanza(x) => Complete(x).id \subseteq {"same", "fresh"}
-ASSUME C05_CompleteIdempotent /\ C05_StanzaAlwaysIdentified
+(* the content namespace depends on the kind of session alone, and the framing namespace is never one *)
+C05_ContentNSByKind ==
+  /\ \A k \in Kinds : ContentNS(k) \in {"client", "server", "accept"}
+  /\ \A s \in Sessions : \A h \in {y \in Inputs : y.form = "send" /\ y.name = "iq" /\ ~y.nested /\ y.kind = s.kind} : Complete(h).ns = ContentNS(s.kind)
+ASSUME C05_CompleteIdempotent /\ C05_StanzaAlwaysIdentified /\ C05_ContentNSByKind
 
 ToSeqSet(S) == SetToSeq(S)
 Vec(x) == [in |-> x, exp |-> [count |-> 1, name |-> Complete(x).name, space |-> ToSeqSet(Complete(x).space),
                               id |-> ToSeqSet(Complete(x).id), from |-> ToSeqSet(Complete(x).from),
-                              outer |-> Complete(x).outer, nested |-> Complete(x).nested, payload |-> "same", next |-> Complete(x).next]]
+                              outer |-> Complete(x).outer, nested |-> Complete(x).nested, payload |-> "same",
+                              ns |-> Complete(x).ns, context |-> Complete(x).context, next |-> Complete(x).next]]
 ASSUME ndJsonSerialize("transmit_vectors.ndjson", SetToSeq({Vec(x) : x \in Inputs}))
 ASSUME PrintT(<<"vectors", Cardinality(Inputs)>>)
 
